@@ -92,4 +92,19 @@ theorem stateToGraph_complete (t : STab) (hn : 0 < t.n) (hg : t.Good) (hi : Inde
     ∃ adj gates, stateToGraph t = .ok (adj, gates) :=
   stateToGraphWith_complete gf2InvF t hn (gf2InvF_ok t.n) hg hi
 
+/-- boolean check of `Good` (for concrete examples) -/
+theorem S2G.good_of_check (t : STab)
+    (h : ((List.range t.n).all fun i => (t.row i).ip == false &&
+      (List.range t.n).all fun k => sp t.n (t.row i) (t.row k) == false) = true) : t.Good := by
+  rw [List.all_eq_true] at h
+  constructor
+  · intro i hi
+    have := h i (List.mem_range.2 hi)
+    simp only [Bool.and_eq_true, beq_iff_eq] at this
+    exact this.1
+  · intro i k hi hk
+    have := h i (List.mem_range.2 hi)
+    simp only [Bool.and_eq_true, beq_iff_eq, List.all_eq_true] at this
+    exact this.2 k (List.mem_range.2 hk)
+
 end Graphiq
